@@ -12,6 +12,7 @@ From Gen Require Import M_base M_Angle.
 From Proofs.C03 Require Import C03_defs C03_reduce C03_construct C03_forms C03_dmsi C03_dms C03_dms_int C03_ops.
 From Proofs.C03 Require C03_grid.
 From PyLib Require B64 B64Verified.
+From Proofs.C03 Require C03_ops_b64.
 From Proofs.C03 Require C03_reduce_b64 C03_b64 C03_ra_b64.
 Import ListNotations.
 Open Scope R_scope.
@@ -318,6 +319,110 @@ Theorem C03_set_ra_b64 : forall x d0 t0 : PrimFloat.float, B64Verified.fin x ->
               <= Raux.bpow Zaux.radix2 (-41).
 Proof. exact C03_ra_b64.set_ra_b64. Qed.
 
+(* binary64 instance, EVERY pair of finite floats a, b stored in Angles (|a|, |b| < 360, any
+   tolerances ta tb): Angle + Angle, Angle - Angle and their in-place forms return a NEW Angle with
+   the default tolerance holding r with  RV r = red360 (RN v),  v the exact real sum / difference:
+   ONE IEEE rounding (never an overflow), then the exact reduction; r is finite, strictly inside
+   (-360, 360), has the sign of the rounded result, and is congruent modulo 360 to the EXACT real v
+   within 2^-44 degree < 1e-9 degree (the property's tolerance).  The operators are pure functions of
+   immutable values in the model, so the operands cannot change. *)
+Theorem C03_addsub_b64 : forall a ta b tb : PrimFloat.float,
+  B64Verified.fin a -> B64Verified.fin b ->
+  Rabs (B64Verified.RV a) < 360 -> Rabs (B64Verified.RV b) < 360 ->
+  let A := C03_b64.angb a ta in let B := C03_b64.angb b tb in
+  let good (res : val PrimFloat.float) (v : R) :=
+    exists (r : PrimFloat.float) (k : Z),
+      res = C03_b64.angb r C03_b64.tol64 /\ B64Verified.fin r /\ Rabs (B64Verified.RV r) < 360 /\
+      B64Verified.RV r = red360 (B64Verified.RN v) /\
+      (0 <= B64Verified.RN v -> 0 <= B64Verified.RV r) /\ (B64Verified.RN v <= 0 -> B64Verified.RV r <= 0) /\
+      Rabs (B64Verified.RV r - (v + 360 * IZR k)) <= Raux.bpow Zaux.radix2 (-44) in
+  good (Angle___add__ B64.B0 A B) (B64Verified.RV a + B64Verified.RV b) /\
+  good (Angle___iadd__ B64.B0 A B) (B64Verified.RV a + B64Verified.RV b) /\
+  good (Angle___sub__ B64.B0 A B) (B64Verified.RV a - B64Verified.RV b) /\
+  good (Angle___isub__ B64.B0 A B) (B64Verified.RV a - B64Verified.RV b) /\
+  Raux.bpow Zaux.radix2 (-44) < 1 / 1000000000.
+Proof.
+  intros a ta b tb Fa Fb Ha Hb A B good.
+  destruct (C03_ops_b64.addsub_AA_b64 a ta b tb Fa Fb Ha Hb) as (H1 & H2 & H3 & H4).
+  exact (conj H1 (conj H2 (conj H3 (conj H4 C03_ops_b64.bpow_m44_small)))).
+Qed.
+
+(* binary64 instance, every finite Angle value a (any tolerance) and every finite scalar: float y,
+   int z with |z| <= 2^53, or a second Angle b.  ok res v  (C03_ops_b64.op_ok) says:
+     res = a NEW Angle, default tolerance, holding a finite r with RV r = red360 (RN v), |RV r| < 360,
+     sign of RN v  -  one IEEE rounding of the exact real operation v, then the exact reduction.
+   Hypothesis nov v (C03_ops_b64.no_overflow): |RN v| < 2^1024, i.e. the IEEE operation does not
+   overflow.  If it does overflow, the operator raises OverflowError (last two conjuncts; Angle(inf)
+   calls int(inf)); a non-finite value is never stored.  Division by zero: C03_division_by_zero_b64. *)
+Theorem C03_operators_b64 : forall a ta : PrimFloat.float, B64Verified.fin a ->
+  let ok := C03_ops_b64.op_ok in let nov := C03_ops_b64.no_overflow in
+  let RV := B64Verified.RV in let fin := B64Verified.fin in let A := C03_b64.angb a ta in
+  (forall y, fin y -> nov (RV a + RV y) ->
+     ok (Angle___add__ B64.B0 A (VFloat y)) (RV a + RV y) /\ ok (Angle___radd__ B64.B0 A (VFloat y)) (RV a + RV y) /\
+     ok (Angle___iadd__ B64.B0 A (VFloat y)) (RV a + RV y)) /\
+  (forall z, (Z.abs z <= 9007199254740992)%Z -> nov (RV a + IZR z) ->
+     ok (Angle___add__ B64.B0 A (VInt z)) (RV a + IZR z) /\ ok (Angle___radd__ B64.B0 A (VInt z)) (RV a + IZR z) /\
+     ok (Angle___iadd__ B64.B0 A (VInt z)) (RV a + IZR z)) /\
+  (forall y, fin y -> nov (RV a - RV y) ->
+     ok (Angle___sub__ B64.B0 A (VFloat y)) (RV a - RV y) /\ ok (Angle___isub__ B64.B0 A (VFloat y)) (RV a - RV y)) /\
+  (* y - a = -(a - y): the stored float is the negation of the one for a - y *)
+  (forall y, fin y -> nov (RV a - RV y) ->
+     exists r, Angle___rsub__ B64.B0 A (VFloat y) = C03_b64.angb (PrimFloat.opp r) C03_b64.tol64 /\ fin (PrimFloat.opp r) /\
+               RV (PrimFloat.opp r) = - red360 (B64Verified.RN (RV a - RV y)) /\ Rabs (RV (PrimFloat.opp r)) < 360) /\
+  (forall b tb, fin b -> nov (RV a * RV b) ->
+     ok (Angle___mul__ B64.B0 A (C03_b64.angb b tb)) (RV a * RV b) /\ ok (Angle___imul__ B64.B0 A (C03_b64.angb b tb)) (RV a * RV b)) /\
+  (forall y, fin y -> nov (RV a * RV y) ->
+     ok (Angle___mul__ B64.B0 A (VFloat y)) (RV a * RV y) /\ ok (Angle___rmul__ B64.B0 A (VFloat y)) (RV a * RV y) /\
+     ok (Angle___imul__ B64.B0 A (VFloat y)) (RV a * RV y)) /\
+  (forall z, (Z.abs z <= 9007199254740992)%Z -> nov (RV a * IZR z) ->
+     ok (Angle___mul__ B64.B0 A (VInt z)) (RV a * IZR z) /\ ok (Angle___rmul__ B64.B0 A (VInt z)) (RV a * IZR z) /\
+     ok (Angle___imul__ B64.B0 A (VInt z)) (RV a * IZR z)) /\
+  (forall y, fin y -> RV y <> 0 -> nov (RV a / RV y) ->
+     ok (Angle___truediv__ B64.B0 A (VFloat y)) (RV a / RV y) /\ ok (Angle___itruediv__ B64.B0 A (VFloat y)) (RV a / RV y)) /\
+  (forall b tb, fin b -> fin tb -> RV tb <= Rabs (RV b) -> RV b <> 0 -> nov (RV a / RV b) ->
+     ok (Angle___truediv__ B64.B0 A (C03_b64.angb b tb)) (RV a / RV b) /\
+     ok (Angle___itruediv__ B64.B0 A (C03_b64.angb b tb)) (RV a / RV b)) /\
+  (forall y, fin y -> fin ta -> RV ta <= Rabs (RV a) -> RV a <> 0 -> nov (RV y / RV a) ->
+     ok (Angle___rtruediv__ B64.B0 A (VFloat y)) (RV y / RV a)) /\
+  (forall y, (PrimFloat.mul a y = PrimFloat.infinity \/ PrimFloat.mul a y = PrimFloat.neg_infinity) ->
+     Angle___mul__ B64.B0 A (VFloat y) = VErr OverflowError) /\
+  (forall y, PrimFloat.eqb y PrimFloat.zero = false -> (PrimFloat.div a y = PrimFloat.infinity \/ PrimFloat.div a y = PrimFloat.neg_infinity) ->
+     Angle___truediv__ B64.B0 A (VFloat y) = VErr OverflowError).
+Proof.
+  intros a ta Fa ok nov RV fin A.
+  split; [exact (C03_ops_b64.add_AF_real a ta Fa)|].
+  split; [exact (C03_ops_b64.add_AI_real a ta Fa)|].
+  split; [exact (C03_ops_b64.sub_AF_real a ta Fa)|].
+  split; [exact (C03_ops_b64.rsub_AF_real a ta Fa)|].
+  split; [exact (C03_ops_b64.mul_AA_real a ta Fa)|].
+  split; [exact (C03_ops_b64.mul_AF_real a ta Fa)|].
+  split; [exact (C03_ops_b64.mul_AI_real a ta Fa)|].
+  split; [exact (C03_ops_b64.div_AF_real a ta Fa)|].
+  split; [exact (C03_ops_b64.div_AA_real a ta Fa)|].
+  split; [exact (C03_ops_b64.rdiv_AF_real a ta Fa)|].
+  split; [exact (C03_ops_b64.mul_AF_overflow a ta) | exact (C03_ops_b64.div_AF_overflow a ta)].
+Qed.
+
+(* binary64, zero divisors: a float equal to 0 (+0.0 or -0.0), an Angle whose |value| is below its
+   tolerance; reflected: the Angle itself below its tolerance; unary - and abs return the same float
+   negated / absolute (bit for bit) *)
+Theorem C03_division_by_zero_b64 : forall a ta y b tb : PrimFloat.float, B64Verified.fin a ->
+  (B64Verified.fin y -> B64Verified.RV y = 0 ->
+     Angle___truediv__ B64.B0 (C03_b64.angb a ta) (VFloat y) = VErr ZeroDivisionError) /\
+  (B64Verified.fin b -> B64Verified.fin tb -> Rabs (B64Verified.RV b) < B64Verified.RV tb ->
+     Angle___truediv__ B64.B0 (C03_b64.angb a ta) (C03_b64.angb b tb) = VErr ZeroDivisionError) /\
+  (B64Verified.fin ta -> Rabs (B64Verified.RV a) < B64Verified.RV ta ->
+     Angle___rtruediv__ B64.B0 (C03_b64.angb a ta) (VFloat y) = VErr ZeroDivisionError) /\
+  (Rabs (B64Verified.RV a) < 360 ->
+     Angle___neg__ B64.B0 (C03_b64.angb a ta) = C03_b64.angb (PrimFloat.opp a) C03_b64.tol64 /\
+     Angle___abs__ B64.B0 (C03_b64.angb a ta) = C03_b64.angb (PrimFloat.abs a) C03_b64.tol64).
+Proof.
+  intros a ta y b tb Fa.
+  destruct (C03_ops_b64.div_zero_real a ta Fa y b tb) as (H1 & H2 & H3).
+  split; [exact H1|]. split; [exact H2|]. split; [exact H3|].
+  intro Ha. split; [exact (C03_ops_b64.neg_A_b64 a ta Fa Ha) | exact (C03_ops_b64.abs_A_b64 a ta Fa Ha)].
+Qed.
+
 Redirect "C03_reduce_deg_ideal.assumptions" Print Assumptions C03_reduce_deg_ideal.
 Redirect "C03_reduction_spec.assumptions" Print Assumptions C03_reduction_spec.
 Redirect "C03_construct_ideal.assumptions" Print Assumptions C03_construct_ideal.
@@ -333,3 +438,6 @@ Redirect "C03_to_positive_b64.assumptions" Print Assumptions C03_to_positive_b64
 Redirect "C03_sexagesimal_canonical_ideal.assumptions" Print Assumptions C03_sexagesimal_canonical_ideal.
 Redirect "C03_operators_more_ideal.assumptions" Print Assumptions C03_operators_more_ideal.
 Redirect "C03_set_ra_b64.assumptions" Print Assumptions C03_set_ra_b64.
+Redirect "C03_addsub_b64.assumptions" Print Assumptions C03_addsub_b64.
+Redirect "C03_operators_b64.assumptions" Print Assumptions C03_operators_b64.
+Redirect "C03_division_by_zero_b64.assumptions" Print Assumptions C03_division_by_zero_b64.
